@@ -1,8 +1,11 @@
 package checks
 
 import (
+	"bufio"
 	"bytes"
 	"fmt"
+	"io"
+	"strings"
 	"sync"
 
 	"github.com/tormoder/fit"
@@ -20,7 +23,7 @@ func registerC10() {
 		Rule: "family frames: every intact device frame and PRNG model files (record areas of 0-3 bytes after file_id up to sizes straddling 4096 and 8192) are served by a " +
 			"counting reader whose backing store is frame || 64 poison bytes || another valid file, under 14 chunkers (1 byte, odd sizes, 4095/4096/4097/5000, PRNG sizes, " +
 			"greedy readers that always fill the buffer, final chunk with io.EOF, occasional (0,nil), yields); for each of the six entry points: bytes delivered <= frame " +
-			"length, == header+data+2 after a successful Decode/CheckIntegrity, result equal to the whole-buffer result; family chains: concatenations of 1-5 files in PRNG " +
+			"length, == header+data+2 after a successful Decode/CheckIntegrity, result equal to the whole-buffer result; the same frames also through bufio readers (16 and 4096 bytes), bytes.Buffer, strings.Reader behind io.LimitReader, io.MultiReader and a reader offering ReadByte/UnreadByte/Seek/ReadAt/WriteTo/Len with short reads; family chains: concatenations of 1-5 files in PRNG " +
 			"order: DecodeChained returns one File per input equal to the solo decode, DecodeHeader / DecodeHeaderAndFileID report Decode's header and file_id. A case is one " +
 			"(file, chunker) pair or one chain; non-trivial: the call succeeded and consumption was measured; distinct by (input digest, chunker)",
 		Assume:        []string{"record.distance of records whose compressed_speed_distance expands is excluded from solo-vs-chained comparison (known finding F5, decided in C18)"},
@@ -203,6 +206,59 @@ func c10Frame(c *lib.Ctx, idx uint64) {
 				}
 			}
 		}
+	}
+	// The same frame through readers of other dynamic types: standard-library readers and a reader that
+	// offers every optional interface (ReadByte, Seek, ReadAt, WriteTo, Len) while still short-reading.
+	// Whatever fast path a decoder takes for such a type, the result must be the whole-buffer result.
+	if chi < 6 {
+		kinds := []string{"bufio16", "bufio4096", "bytes.Buffer", "strings.Reader+LimitReader", "MultiReader", "fancy"}
+		kind := kinds[chi]
+		for _, ep := range lib.EntryPoints {
+			if ep == "DecodeChained" {
+				continue
+			}
+			var rd io.Reader
+			var fr *lib.FancyReader
+			switch kind {
+			case "bufio16":
+				rd = bufio.NewReaderSize(lib.NewReader(store, lib.Chunker{Kind: "rand", Size: 300, R: rng}), 16)
+			case "bufio4096":
+				rd = bufio.NewReader(lib.NewReader(store, lib.Chunker{Kind: "rand", Size: 5000, R: rng}))
+			case "bytes.Buffer":
+				rd = bytes.NewBuffer(append([]byte{}, store...))
+			case "strings.Reader+LimitReader":
+				rd = io.LimitReader(strings.NewReader(string(store)), int64(len(store)))
+			case "MultiReader":
+				k := len(frame) / 3
+				rd = io.MultiReader(bytes.NewReader(store[:k]), bytes.NewReader(store[k:2*k+1]), bytes.NewReader(store[2*k+1:]))
+			default:
+				fr = lib.NewFancyReader(store, rng)
+				rd = fr
+			}
+			var res lib.CallResult
+			o := lib.Guard(func() { res = lib.Call(ep, rd) })
+			c.Eval()
+			if o.Panicked || o.Hang {
+				c.Violation(frame, "%s through a %s reader panicked/hung on %s: %s", ep, kind, label, o.Panic)
+				return
+			}
+			b := base[ep]
+			if lib.ErrText(res.Err) != lib.ErrText(b.Err) {
+				c.Violation(frame, "%s on %s: through a %s reader the error is %q, through a plain reader %q", ep, label, kind, lib.ErrText(res.Err), lib.ErrText(b.Err))
+				return
+			}
+			if fr != nil && fr.Pos() > len(frame) {
+				c.Violation(frame, "%s through a reader offering ReadByte/Seek/ReadAt consumed %d bytes of %s, frame is %d", ep, fr.Pos(), label, len(frame))
+				return
+			}
+			if ep == "Decode" && res.Err == nil {
+				if diffs := lib.CompareContent(lib.FileContent(b.File), lib.FileContent(res.File), lib.CompareOpts{Header: true, Skip: distanceSkip(res.File)}); len(diffs) > 0 {
+					c.Violation(frame, "Decode of %s depends on the reader's type (%s): %s", label, kind, lib.DiffsString(diffs, 3))
+					return
+				}
+			}
+		}
+		c.Count("reader_kind_"+kind, 1)
 	}
 	if okCases > 0 {
 		c.Nontrivial(frame, []byte(ch.String()))
